@@ -9,6 +9,8 @@ def text_edit(old, new):
         return src.replace(old, new, 1) if old in src else None
     return edit
 MUTANTS = [
+    Mutant('block_comment_uppercased', 'src/pharmpy/model/external/nonmem/update.py', text_edit("                code += f'{omega.init}'.upper()\n\n                if not re.match(f'{record_type}_{row + eta_number}_{col + eta_number}', omega.name):\n                    code += f'\\t; {omega.name}'\n\n                code += '\\n'", "                line = f'{omega.init}'\n\n                if not re.match(f'{record_type}_{row + eta_number}_{col + eta_number}', omega.name):\n                    line += f'\\t; {omega.name}'\n\n                code += f'{line.upper()}\\n'"), 'P10', 'name comment upper-cased'),
+    Mutant('omega_equal_ignores_fix', 'src/pharmpy/model/external/nonmem/records/omega_record.py', text_edit("                    if n == 1 or (\n                        new_inits.count(new_init) == len(new_inits)\n                        and new_fix.count(new_fix[0]) == len(new_fix)\n                    ):  # All equal?", "                    if n == 1 or len(set(new_inits)) == 1:  # All equal?"), 'P11', 'fix flags not compared'),
     Mutant('omega_remove_drops_newline', 'src/pharmpy/model/external/nonmem/records/omega_record.py', text_edit("                if in_keep or node.rule == 'NEWLINE':", "                if in_keep:"), 'P9', 'line break dropped with the item'),
     Mutant('omega_split_no_reset', 'src/pharmpy/model/external/nonmem/records/omega_record.py', text_edit("                            node = base_node\n", "").__call__ and (lambda src: src.replace("                        base_node = node.remove('n')", "                        node = node.remove('n')", 1).replace("                            node = base_node\n", "", 1) if "node = base_node" in src else None), 'P7', 'FIX edit carried to next repeat'),
     Mutant('eta_number_hoisted', 'src/pharmpy/model/external/nonmem/update.py', (lambda src: src.replace("                kept.append(newrec)\n            eta_number += len(rvs)\n        elif op == -1:", "                kept.append(newrec)\n        elif op == -1:", 1).replace("                recindex += 1\n            eta_number += len(rvs)\n        if recindex < len(records) and diag_index", "                recindex += 1\n        eta_number += len(rvs)\n        if recindex < len(records) and diag_index", 1) if "            eta_number += len(rvs)\n        elif op == -1:" in src else None), 'P8', 'counter advances for removed distributions'),
